@@ -12,9 +12,9 @@ import tr_fourier as T
 # pattern ids of coq/theory/FourierModel.v
 PIDNUM = {'const': 0, 't': 1, 't2': 2, 'abs': 3, 'sign': 4, 'step': 5, 'recip': 6, 'recip2': 7, 'tstep': 8, 'expu': 9,
           'sincn': 10, 'sincu': 11, 'sincn2': 12, 'rect': 13, 'tri': 14, 'trap': 15, 'trap0': 16, 'reciplin': 17,
-          'sech': 18, 'csch': 19, 'tanh': 20, 'cexp': 21, 'tratio1': 22, 'tratio2': 22}
+          'sech': 18, 'csch': 19, 'tanh': 20, 'cexp': 21, 'tratio1': 22, 'tratio2': 22, 'tratio1n': 23, 'tratio2n': 23}
 RULES = {'R_simshift': 'sp_simshift', 'R_mod': 'sp_mod'}
-SPEC_ALIAS = {'tratio1': 'sp_tratio', 'tratio2': 'sp_tratio'}
+SPEC_ALIAS = {'tratio1': 'sp_tratio', 'tratio2': 'sp_tratio', 'tratio1n': 'sp_tration', 'tratio2n': 'sp_tration'}
 # entries that have no specification (outside C12's signal class) or cannot fire
 UNSPECIFIED = {'tdelta1': 't * DiracDelta(t, 1): polynomial-weighted derivative of an impulse, outside the signal class',
                'DEAD': 'guard is `False and ...`',
@@ -42,7 +42,11 @@ PAT = {
     'tri': ([], '[]', ''), 'trap': ([], '[]', ''), 'trap0': ([], '[]', ''),
     'reciplin': (['rho 3%nat <> 0'], '[]', ''), 'sech': ([], '[]', ''), 'csch': ([], '[]', ''), 'tanh': ([], '[]', ''),
     'cexp': (['rho 10%nat <> 0'], '[]', ''),
+    # t/(a t - j b): the branch returns the lower-half-plane form when (b/a).is_negative and the upper-half-plane form
+    # otherwise (also for a symbolic b/a of unknown sign); the sign is the hypothesis `c_stable` of the FPair theorems
+    # sp_sound_tratio (b/a > 0) / sp_sound_tration (b/a < 0) that these closed forms are compared with
     'tratio1': (['rho 5%nat <> 0'], '[]', ''), 'tratio2': (['rho 5%nat <> 0'], '[]', ''),
+    'tratio1n': (['rho 5%nat <> 0'], '[]', ''), 'tratio2n': (['rho 5%nat <> 0'], '[]', ''),
     'R_simshift': (['rho 7%nat <> 0'], '[]', ''), 'R_mod': (['rho 10%nat <> 0'], '[]', ''),
 }
 
@@ -166,7 +170,7 @@ def structural_checks(tr):
         res.append(('transformer_key_is_expr_t_f', tr.facts.get('key') == 'return (expr, t, f)', str(tr.facts.get('key'))))
         res.append(('sympy_fourier_transform_called', bool(tr.facts.get('sympy_call')), ''))
         pids = [e['pid'] for e in tr.entries]
-        for need in [x for x in PIDNUM if x != 'tratio2'] + list(RULES):
+        for need in [x for x in PIDNUM if x not in ('tratio2', 'tratio2n')] + list(RULES):
             if need not in pids:
                 res.append(('entry_present_%s' % need, False, 'no return for pattern %s' % need))
     if tr.inverse is not None:
